@@ -20,9 +20,10 @@ syntactic guard `NoKnownSchemaTrigger`, and the acceptance equivalence `schema_a
 proved in full for every document satisfying the guard.
 -/
 import TrustfallModel.Proofs.SchemaOrigins
+import TrustfallModel.Proofs.SchemaExamples
 
 namespace TF.C19
-open TF TF.SchemaDoc
+open TF TF.SchemaDoc TF.SchemaDoc.Examples
 
 /-- **No panic** (partial): a document without any of the known panic triggers — exactly one
 `schema` block whose query type is a defined object type, no definition re-using a built-in scalar
@@ -151,17 +152,6 @@ theorem field_origins_cycle_iff {vts : List TypeDef} (hd : Distinct vts) :
 
 section Witnesses
 
-def intTy : PTy := .named "Int" false
-def tyA : Def := .type { name := "A", isInterface := false, implements := [], fields := [⟨"x", intTy, []⟩] }
-def tyQ (fs : List Field) : Def := .type { name := "Q", isInterface := false, implements := [], fields := fs }
-def edgeA (args : List Arg) : Field := ⟨"a", .named "A" false, args⟩
-/-- `schema { query: Q }  type Q { a: A }  type A { x: Int }` -/
-def small : Doc := [.schema "Q", tyQ [edgeA []], tyA]
-/-- `n` list levels around `Int`. -/
-def deep : Nat → PTy
-  | 0 => intTy
-  | n + 1 => .list (deep n) false
-
 /-- F-16: a second `schema` block. -/
 theorem panics_dup_schema_block : (Schema.new (.schema "Q" :: small)).panicSite? = some .dupSchemaBlock := by decide
 /-- F-17: no `schema` block. -/
@@ -220,28 +210,6 @@ section NonVacuity
 example : NoKnownSchemaTrigger small = true := by decide
 example : accepts small = true := by decide
 theorem small_valid : ValidSchema small := (accepts_iff small (by decide)).mp (by decide)
-
-def strTy : PTy := .named "String" false
-def named (n : Name) : PTy := .named n false
-def iface (n : Name) (impls : List Name) (fs : List Field) : Def :=
-  .type { name := n, isInterface := true, implements := impls, fields := fs }
-def obj (n : Name) (impls : List Name) (fs : List Field) : Def :=
-  .type { name := n, isInterface := false, implements := impls, fields := fs }
-def root : Def := obj "Q" [] [⟨"b", named "B", []⟩]
-def fx : Field := ⟨"x", .named "Int" false, []⟩
-def withB (ds : List Def) : Doc := [.schema "Q", root] ++ ds
-
-/-- A richer valid schema: interface chain `K implements J`, an implementer of both with a narrowed
-property (`Int` → `Int!`), a narrowed edge target (`J` → `B!`), a widened parameter (`Int!` → `Int`)
-with default values, the directive prelude and a custom scalar. -/
-def rich : Doc :=
-  [.directive "filter", .directive "output", .scalar "Date", .schema "Q", root,
-   iface "J" [] [⟨"x", .named "Int" false, []⟩, ⟨"next", .named "J" false, [⟨"n", .named "Int" true, some (.val (.int64 1))⟩]⟩],
-   iface "K" ["J"] [⟨"x", .named "Int" false, []⟩, ⟨"next", .named "J" false, [⟨"n", .named "Int" true, none⟩]⟩,
-      ⟨"tags", .list (.named "String" true) false, []⟩],
-   obj "B" ["K", "J"] [⟨"x", .named "Int" true, []⟩,
-      ⟨"next", .named "B" true, [⟨"n", .named "Int" false, some (.val .null)⟩]⟩,
-      ⟨"tags", .list (.named "String" true) true, []⟩]]
 
 example : NoKnownSchemaTrigger rich = true := by decide
 theorem rich_valid : ValidSchema rich := (accepts_iff rich (by decide)).mp (by decide)
